@@ -147,6 +147,8 @@ static void part2() {
      c.args = {m, l, mkarg('v', "verbose", FLAG)}; setups.push_back({c, {use(0, "3"), use(0, "7"), use(0, "6"), use(1, "a,b"), use(1, "c"), use(2, nullptr)}}); }
    { Cfg c; Arg n = mkarg('n', "numbers", VECINT); n.multival = true; n.card = 2; n.cardA = 2; c.args = {n, mkarg('v', "verbose", FLAG)};
      Use a = use(0, "1"); a.more = {"2"}; Use b = use(0, "3"); b.more = {"4"}; setups.push_back({c, {a, b, use(0, "5"), use(1, nullptr)}}); }
+   { Cfg c; Arg l = mkarg('l', "list", VECSTR); l.card = 2; l.cardA = 2; Arg n = mkarg('n', "nums", VECINT); n.card = 3; n.cardA = 1; n.cardB = 3; c.args = {l, n, mkarg('v', "verbose", FLAG)};
+     setups.push_back({c, {use(0, "a,b"), use(0, "c"), use(1, "1,2"), use(1, "3"), use(2, nullptr)}}); }
    const int depth = vf::thorough() ? 3 : 2;
    for (auto& su : setups) {
       const Cfg& cfg = su.first; const std::vector<Use>& alpha = su.second;
